@@ -70,7 +70,7 @@ Qed.
 
 (** * Index entries *)
 Lemma idx_get_set i to f v to' f' :
-  idx_get (idx_set i to f v) to' f' = if pair_eqb (to', f') (to, f) then v else idx_get i to' f'.
+  idx_get (idx_set i to f v) to' f' = if pair_eqb (to', f') (to, f) then filter is_multi v else idx_get i to' f'.
 Proof.
   unfold idx_get, idx_set. destruct v as [|x v].
   - rewrite (aget_adel pair_eqb pair_eqb_eq). destruct (pair_eqb (to', f') (to, f)); reflexivity.
@@ -84,21 +84,26 @@ Proof.
   apply IH; [|exact Hne]. rewrite idx_get_set.
   destruct (pair_eqb (to', f') (to, f)) eqn:E; [|exact Hin].
   apply pair_eqb_eq in E. injection E as -> ->.
+  apply filter_In. split; [|apply (idx_get_multi _ _ _ _ Hin)].
   apply In_simplify. split; [apply in_or_app; left; exact Hin|].
   intros [H|[]]. congruence.
 Qed.
 
+Lemma multi_not_single (x : list addr) f : is_multi x = true -> x <> [f].
+Proof. intros H E. subst. discriminate. Qed.
+
 Lemma idx_add_all_adds to sfx froms : forall i f,
-  In f froms -> sfx <> [f] -> In sfx (idx_get (idx_add_all i to froms sfx) to f).
+  In f froms -> is_multi sfx = true -> In sfx (idx_get (idx_add_all i to froms sfx) to f).
 Proof.
-  induction froms as [|f0 froms IH]; intros i f Hin Hne; [destruct Hin|].
+  induction froms as [|f0 froms IH]; intros i f Hin Hm; [destruct Hin|].
   destruct (Pos.eq_dec f0 f) as [->|Hd].
-  - unfold idx_add_all. cbn [fold_left]. apply (idx_add_all_keeps to sfx froms); [|exact Hne].
+  - unfold idx_add_all. cbn [fold_left]. apply (idx_add_all_keeps to sfx froms); [|apply multi_not_single, Hm].
     rewrite idx_get_set. rewrite (proj2 (pair_eqb_eq (to, f) (to, f)) eq_refl).
+    apply filter_In. split; [|exact Hm].
     apply In_simplify. split; [apply in_or_app; right; left; reflexivity|].
-    intros [H|[]]. congruence.
+    intros [H|[]]. symmetry in H. revert H. apply multi_not_single, Hm.
   - destruct Hin as [Hin|Hin]; [contradiction|].
-    unfold idx_add_all. cbn [fold_left]. apply (IH _ f Hin Hne).
+    unfold idx_add_all. cbn [fold_left]. apply (IH _ f Hin Hm).
 Qed.
 
 Lemma idx_del_all_keeps to sfx froms : forall i to' f' x,
@@ -109,6 +114,7 @@ Proof.
   apply IH; [|exact Hne|exact Hk]. rewrite idx_get_set.
   destruct (pair_eqb (to', f') (to, f)) eqn:E; [|exact Hin].
   apply pair_eqb_eq in E. injection E as -> ->.
+  apply filter_In. split; [|apply (idx_get_multi _ _ _ _ Hin)].
   apply In_simplify. split; [exact Hin|].
   intros [H|[H|[]]]; [congruence|]. destruct Hk as [Hk|Hk]; congruence.
 Qed.
@@ -126,8 +132,17 @@ Proof.
   unfold addr in *. rewrite <- Hl in H. lia.
 Qed.
 
-Lemma single_sort (f : addr) : sort [f] = [f].
-Proof. reflexivity. Qed.
+Lemma is_multi_sort l : is_multi l = true -> is_multi (sort l) = true.
+Proof.
+  intros H. apply is_multi_length. apply is_multi_length in H.
+  pose proof (Permutation_length (sort_perm l)) as Hl. unfold addr in *. lia.
+Qed.
+
+Lemma multi_sfx_not_single l f : is_multi l = true -> sfx_of l <> [f].
+Proof. intros H. rewrite (sfx_multi _ H). apply multi_sort_not_single, H. Qed.
+
+Lemma is_multi_sfx l : is_multi l = true -> is_multi (sfx_of l) = true.
+Proof. intros H. rewrite (sfx_multi _ H). apply is_multi_sort, H. Qed.
 
 (** * The invariant *)
 Definition idx_sound (s : state) : Prop :=
@@ -148,8 +163,8 @@ Lemma set_record_full s to r s' : set_record s to r = Some s' ->
   s_recs s' = (if fully_accepted r then rdel (mk_key to (all_froms r)) (s_recs s)
                else rset (mk_key to (all_froms r)) r (s_recs s)) /\
   s_idx s' = (if is_multi (all_froms r)
-              then if fully_accepted r then idx_del_all (s_idx s) to (all_froms r) (sort (all_froms r))
-                   else idx_add_all (s_idx s) to (all_froms r) (sort (all_froms r))
+              then if fully_accepted r then idx_del_all (s_idx s) to (all_froms r) (sfx_of (all_froms r))
+                   else idx_add_all (s_idx s) to (all_froms r) (sfx_of (all_froms r))
               else s_idx s).
 Proof.
   unfold set_record, same_settings. remember (all_froms r) as fr eqn:E.
@@ -169,18 +184,18 @@ Proof.
     pose proof (Hi k r1 Hg Hm f Hf) as Hin.
     destruct (is_multi froms); [|exact Hin].
     pose proof (wf_rget _ _ _ Hw Hg) as [Hk _]. cbn [fst snd] in Hk.
-    apply idx_del_all_keeps; [exact Hin | rewrite Hk; apply multi_sort_not_single, Hm |].
+    apply idx_del_all_keeps; [exact Hin | rewrite Hk; apply multi_sfx_not_single, Hm |].
     destruct (Pos.eq_dec (fst k) to) as [Et|Et]; [|left; exact Et]. right. intros Es.
     assert (k = k0) by (destruct k; unfold k0, mk_key; cbn [fst snd] in *; f_equal; [exact Et | exact Es]).
     subst k. rewrite rkey_eqb_refl in Ek. discriminate.
   - rewrite rget_rset in Hg. destruct (rkey_eqb k k0) eqn:Ek.
     + injection Hg as <-. apply rkey_eqb_eq in Ek. subst k. unfold k0, mk_key. cbn [fst snd].
       fold froms in Hm, Hf. rewrite Hm.
-      apply idx_add_all_adds; [exact Hf | apply multi_sort_not_single, Hm].
+      apply idx_add_all_adds; [exact Hf | apply is_multi_sfx, Hm].
     + pose proof (Hi k r1 Hg Hm f Hf) as Hin.
       destruct (is_multi froms); [|exact Hin].
       pose proof (wf_rget _ _ _ Hw Hg) as [Hk _]. cbn [fst snd] in Hk.
-      apply idx_add_all_keeps; [exact Hin | rewrite Hk; apply multi_sort_not_single, Hm].
+      apply idx_add_all_keeps; [exact Hin | rewrite Hk; apply multi_sfx_not_single, Hm].
 Qed.
 
 (** * Completeness of GetQuarantineRecords *)
@@ -196,13 +211,18 @@ Lemma get_records_complete s k r f froms :
 Proof.
   intros Hw Hi Hg Hf Hfr.
   pose proof (wf_rget _ _ _ Hw Hg) as [Hk Hun]. cbn [fst snd] in Hk, Hun.
-  assert (Hsfx : In (snd k) (get_suffixes s (fst k) froms)).
-  { unfold get_suffixes. apply In_dedup, in_flat_map. exists f. split; [exact Hfr|].
-    apply in_or_app. destruct (is_multi (all_froms r)) eqn:Em.
-    - left. apply (Hi k r Hg Em f Hf).
-    - right. left. rewrite Hk.
-      rewrite (single_sender (all_froms r) f); [reflexivity| |exact Em|exact Hf].
-      unfold all_froms. intros E. apply app_eq_nil in E. apply Hun, E. }
-  unfold get_records. apply in_flat_map. exists (snd k). split; [exact Hsfx|].
+  assert (Hsfx : exists x, In x (get_suffixes s (fst k) froms) /\ key_sfx x = snd k).
+  { destruct (is_multi (all_froms r)) eqn:Em.
+    - exists (snd k). split.
+      + unfold get_suffixes. apply In_dedup, in_flat_map. exists f. split; [exact Hfr|].
+        apply in_or_app. left. apply (Hi k r Hg Em f Hf).
+      + apply key_sfx_multi. rewrite Hk. apply is_multi_sfx, Em.
+    - exists [f]. split.
+      + unfold get_suffixes. apply In_dedup, in_flat_map. exists f. split; [exact Hfr|].
+        apply in_or_app. right. left. reflexivity.
+      + rewrite Hk. rewrite (single_sender (all_froms r) f); [reflexivity| |exact Em|exact Hf].
+        unfold all_froms. intros E. apply app_eq_nil in E. apply Hun, E. }
+  destruct Hsfx as (x & Hx & Ex).
+  unfold get_records. apply in_flat_map. exists x. split; [exact Hx|]. rewrite Ex.
   replace (fst k, snd k) with k by (destruct k; reflexivity). rewrite Hg. left. reflexivity.
 Qed.
